@@ -38,7 +38,9 @@ CLAIMS = {
          "C03_ptr_irrelevant), equality = agreement per name (C03_eq). The same for second-order numbers incl. the stored "
          "half-Hessian per PAIR of names and the product rule with the symmetrised cross term (C03_wf_dual2, C03_hom_dual2, "
          "C03_layout_irrelevant_dual2, C03_ptr_irrelevant_dual2, and C03_eq_dual2: == is agreement of value, gradient by name "
-         "and Hessian by name pair; Proofs/Dual2Layout.lean). Correspondence is exhaustive over layouts of a 3/4-name pool, bit-exact.",
+         "and Hessian by name pair; Proofs/Dual2Layout.lean). Constructors on ANOTHER number's list (new_from / try_new_from, "
+         "Proofs/NewFrom.lean): exactly that list, the fresh number's derivative for every name it has, nothing for the others, an "
+         "error exactly when try_new gives one (C03_new_from, C03_try_new_from, C03_new_from_dual2). Correspondence is exhaustive over layouts of a 3/4-name pool, bit-exact.",
     design_ref="DESIGN.md §3 C03",
     note=_corr + "f64 rounding modelled (theorems over rings; exact dyadic inputs in the run); the remainder operator's name-indexed spec is in C19.",
     technique="Lean 4 proof (list induction, name-indexed denotation refinement) + exhaustive-layout differential correspondence"),
@@ -184,7 +186,10 @@ CLAIMS = {
          "LEFT derivative (C14_left_derivative_at_right_end), the right-end-point rule with the carried ORIGINAL order "
          "yielding the left-continuous representative of the same piecewise polynomial (C14_right_end_derivatives, "
          "C14_one_piecewise_polynomial); order 0 is the value and orders m >= k vanish (C14_deriv_zero, "
-         "C14_deriv_high).",
+         "C14_deriv_high). DUAL ABSCISSA on one basis function (the public bsplev_single_dual(2) / "
+         "bspldnev_single_dual(2), called directly by the run): value, d1*dx and d1*(half d2x) + half*d2*dx dx by (pairs of) names, "
+         "d1, d2 the right derivatives of the order-m and order-(m+1) outputs (C14_dual_abscissa_single, "
+         "C14_dual2_abscissa_single).",
     design_ref="DESIGN.md §3 C14",
     note=_corr + "f64 rounding not modelled (theorems over R); the right-end statements assume the last knot has multiplicity "
          "exactly K.",
